@@ -32,10 +32,34 @@ def gen_cases(rng, tier):
                     st['mod'] = rng.pick([2, 3, 5])
                 steps.append(st)
             cases.append({'kind': 'lookahead', 'n': n, 'steps': steps, 'sparse': rng.pick([None, None, 'leading', 'always'])})
+    # load(limit_rows=K): once K rows are delivered nothing more may be pulled from the source
+    for n in ([40, 5000] if tier != 'thorough' else [40, 5000, 100000]):
+        for k in (1, 10):
+            cases.append({'kind': 'limit', 'n': n, 'limit': k})
     return cases
 
 
+def run_limit(case):
+    import dataflows as DF
+    from dataflows import Flow
+    pulled = [0]
+
+    def gen():
+        for i in range(case['n']):
+            pulled[0] += 1
+            yield {'i': i}
+    desc = {'resources': [{'name': 'r', 'path': 'r.csv', 'schema': {'fields': [{'name': 'i', 'type': 'integer'}]}}]}
+    try:
+        with quiet():
+            r = Flow(DF.load((desc, [gen()]), limit_rows=case['limit'])).results()[0]
+        return {'outcome': 'returned', 'deliveries': len(r[0]), 'pulls': pulled[0]}
+    except Exception as e:
+        return {'outcome': ['raised', type(e).__name__, str(e)[:200]]}
+
+
 def run_impl(case):
+    if case['kind'] == 'limit':
+        return run_limit(case)
     out = run_pipeline(case['n'], case['steps'], os.path.join(scratch(), 'c6_%s' % digest(case)), sparse=case.get('sparse'))
     pulled, la = 0, []
     for e in out['events']:
@@ -52,6 +76,14 @@ def run_impl(case):
 def oracle(case, out):
     if out['outcome'] != 'returned':
         return 'pipeline failed: %r' % (out['outcome'],)
+    if case['kind'] == 'limit':
+        want = min(case['limit'], case['n'])
+        if out['deliveries'] != want:
+            return 'load(limit_rows=%d) of %d rows delivered %d rows' % (case['limit'], case['n'], out['deliveries'])
+        if out['pulls'] - out['deliveries'] > SAMPLE:
+            return 'load(limit_rows=%d) of %d rows: %d rows were pulled from the source for %d delivered' % (
+                case['limit'], case['n'], out['pulls'], out['deliveries'])
+        return None
     if out['pulls'] != case['n']:
         return 'the source handed out %d rows of %d' % (out['pulls'], case['n'])
     bound = SAMPLE
@@ -62,7 +94,7 @@ def oracle(case, out):
 
 
 def coq_term(case, out):
-    if 'events' not in out:
+    if case['kind'] == 'limit' or 'events' not in out:
         return None
     return coq_trace_term(case['n'], case['steps'], out)
 
@@ -72,7 +104,7 @@ def nontrivial(case, out):
 
 
 def shrinks(case):
-    for i in range(len(case['steps'])):
+    for i in range(len(case.get('steps', []))):
         if len(case['steps']) > 1:
             c = copy.deepcopy(case)
             del c['steps'][i]
